@@ -325,6 +325,9 @@ def do_replay(prop, path):
     known, _ = findings.load()
     res = evaluate(prop, case, prop.BUDGET["thorough"].get("case_timeout", 120) * 4)
     if res.fail is None:
+        if any(str(l).startswith("inconclusive") for l in res.labels):
+            print(f"replay {path}: inconclusive ({res.labels})")
+            return 3
         print(f"replay {path}: property held ({res.labels})")
         return 0
     k = findings.match(known, prop.ID, res.fail)
@@ -334,6 +337,20 @@ def do_replay(prop, path):
     print(f"  clause={res.fail.clause}\n  {res.fail.msg}")
     print(f"VIOLATION property={prop.ID} replay={path}")
     return 1
+
+
+def _confirm_in_fresh_process(prop_id, path):
+    """'violation' / 'held' / 'inconclusive' (treated as violation: the in-process observation stands)."""
+    import subprocess
+    env = dict(os.environ, VERIF_NO_FUZZ="1")
+    try:
+        r = subprocess.run([sys.executable, "-W", "ignore", "-m", "vp.runner", prop_id, "--replay", path],
+                           cwd=core.VERIF_DIR, env=env, capture_output=True, text=True, timeout=1800)
+    except subprocess.TimeoutExpired:
+        return "inconclusive"
+    if r.returncode == 0 and "property held" in r.stdout:
+        return "held"
+    return "violation" if r.returncode == 1 else "inconclusive"
 
 
 def main(argv=None):
@@ -387,19 +404,28 @@ def main(argv=None):
         os.makedirs(os.path.join(core.OUT_DIR, "replays"), exist_ok=True)
         seen = set()
         nviol = 0
+        unconfirmed = []
         for v in stats.violations:
             b = v["fail"]["clause"]
             if b in seen:
                 continue
             seen.add(b)
-            nviol += 1
             name = f"{prop_id}-{digest([b, v['case']])}.json"
             rel = os.path.join("replays", name)
             with open(os.path.join(core.OUT_DIR, rel), "w") as fh:
                 json.dump({"property": prop_id, "case": v["case"], "fail": v["fail"], "tier": ns.tier,
                            "seed": seed, "shrunk": v.get("shrunk", False)}, fh, indent=1, default=str)
+            # A failure is only believed when its saved case fails again in a fresh process: a worker whose state was
+            # damaged (e.g. the per-case alarm firing in the middle of a lazy import inside torch) must not raise an alarm.
+            verdict = _confirm_in_fresh_process(prop_id, os.path.join(core.OUT_DIR, rel))
+            if verdict == "held":
+                unconfirmed.append({"clause": b, "replay": rel})
+                continue
+            nviol += 1
             print(f"  clause={b}\n  {v['fail']['msg']}")
             print(f"VIOLATION property={prop_id} replay={rel}")
+        if unconfirmed:
+            extra = dict(extra or {}, failures_not_reproduced_in_a_fresh_process=unconfirmed)
         for text, n in sorted(stats.excluded_known.items()):
             print(f"KNOWN-FINDING: property={prop_id} {text} (cases excluded: {n})")
         wall = time.time() - t0
